@@ -590,7 +590,8 @@ class Tape:
                 an = cot[i].ravel()[j]
                 if not np.isfinite(fd) or not np.isfinite(an):
                     continue
-                cancel = 8 * 2.2e-16 * max(abs(fp), abs(fm), 1.0) / h  # rounding of f(x+h)-f(x-h)
+                # rounding of f(x+h)-f(x-h): intermediate values can be far larger than f itself
+                cancel = 16 * 2.2e-16 * max(abs(fp), abs(fm), self.vmax, 1.0) / h
                 trunc = 0.0
                 if abs(fd - an) > atol + cancel + rtol * max(abs(fd), abs(an)):
                     # steep functions (tan/sec/csch near their poles): estimate the truncation error of
